@@ -6,6 +6,23 @@
 // load the cell and read the object several times; writers unlink the object
 // (replace the cell), take tick(), poll low_water_mark() and reclaim (mark +
 // delete) the old object once the mark reached the tick.
+//
+// --mode 0 / 1: thread-local style only / Accessor style only (default mixed).
+// --mode 2 (diagnostic, not part of the default mix): additionally registers the
+//   objects with the happens-before detector. On the unmodified tree this
+//   reports class `race`: a reader that leaves a region and re-enters publishes
+//   its new version with a *relaxed* store to the slot the earlier unlock()
+//   release-stored to; a writer that reads the relaxed value does not
+//   synchronise with the earlier unlock under C++20 (release sequences are no
+//   longer continued by same-thread stores), so the reclaimer's writes are
+//   formally unordered with the old region's reads. Benign on real hardware and
+//   under C++11-17 rules; outside the statement of C09.
+//
+// Side channels (guide rule 11): objects travel through the atomic cell,
+// accessors through a mutex-protected mailbox; the plain `holds`/`unlinked`
+// tables are read by the oracle only, nobody acts on them. No drain() is placed
+// between Epoch::lock's slot store and the reader's loads — that window is the
+// subject of the check.
 #include <babylon/concurrent/epoch.h>
 #include <sched.h>
 #include <unistd.h>
